@@ -406,7 +406,10 @@ def run(chk, facts, tier, only=None):
                    (cp, r"^candid_parser::bindings::analysis::infer_rec::go$", "infer_rec::go"),
                    (cp, r"^candid_parser::random::size_helper$", "size_helper"))
         found = 0
+        from shared import scanner_of_infer_rec
         for crate, key_re, name in helpers:
+            if name == "infer_rec::go":
+                key_re = "^" + re.escape(scanner_of_infer_rec(cp)["key"]) + "$"
             t = tree(crate, key_re)
             key = t.h["key"]
             m = the_match(t.h, r"TypeInner$", 2)
